@@ -74,6 +74,26 @@ mod harnesses {
         let w = s.estimate_wait_time(ratio);
         assert!(w >= 1.0e-6);
     }
+    /// BOUNDED stand-in of the harness above (which does not close in 20 min): previous_count is enumerated as a constant 0..=3,
+    /// limit <= 4, current <= limit; ratio symbolic. Bound stated in the evidence; never counted as proved.
+    #[kani::proof]
+    #[kani::unwind(5)]
+    fn estimate_wait_positive_when_full_small() {
+        let limit: usize = kani::any(); let current: usize = kani::any();
+        let ratio: f64 = kani::any();
+        kani::assume(ratio >= 0.0 && ratio <= 0.999_999);
+        kani::assume(limit >= 1 && limit <= 4 && current <= limit);
+        let mut p: usize = 0;
+        while p <= 3 {
+            let s = SlidingCounterState { limit_for_period: limit, bucket_secs: 1.0, previous_count: p, current_count: current };
+            let weighted = leaf_weighted_count(p, 1.0 - ratio, current);
+            if !(weighted < limit as f64) {
+                let w = s.estimate_wait_time(ratio);
+                assert!(w >= 1.0e-6);
+            }
+            p += 1;
+        }
+    }
     /// C19: the three IEEE facts the chaos unit assumes about its comparison shims (bodies `a < b`, `a > 0.0`)
     #[kani::proof]
     fn chaos_float_facts() {
